@@ -104,10 +104,16 @@ func (p *Processor) handleMessage(ctx context.Context, k *common.MessagePublicat
 		// unmarshal vaa
 		var existing *vaa.VAA
 		if existing, err = vaa.Unmarshal(vb); err != nil {
-			panic("failed to unmarshal VAA from db")
-		}
-
-		if k.Timestamp.Sub(existing.Timestamp) > settlementTime {
+			// The stored copy does not decode (e.g. a message with an empty payload, which the wire
+			// decoder refuses). Crashing the guardian here would let any such message take the node
+			// down on re-observation; treat it as not stored and sign again, which is idempotent.
+			p.logger.Error("failed to unmarshal VAA from db",
+				zap.Stringer("emitter_chain", k.EmitterChain),
+				zap.Stringer("emitter_address", k.EmitterAddress),
+				zap.Uint64("sequence", k.Sequence),
+				zap.Error(err),
+			)
+		} else if k.Timestamp.Sub(existing.Timestamp) > settlementTime {
 			p.logger.Info("ignoring observation since we already have a quorum VAA for it",
 				zap.Stringer("emitter_chain", k.EmitterChain),
 				zap.Stringer("target_chain", k.TargetChain),
